@@ -88,7 +88,8 @@ pub enum MonorailError {
 // conversions used by `?` — mirror core/error.rs (ASSUMED: not extracted)
 impl From<graph_err::GraphError> for MonorailError { #[verifier::external_body] fn from(error: graph_err::GraphError) -> (r: Self) ensures r is Graph { MonorailError::Graph(error) } }
 impl From<String> for MonorailError { #[verifier::external_body] fn from(error: String) -> (r: Self) ensures r is Generic { MonorailError::Generic(error) } }
-impl From<&str> for MonorailError { #[verifier::external_body] fn from(error: &str) -> (r: Self) ensures r is Generic { unimplemented!() } }
+impl From<&str> for MonorailError { #[verifier::external_body] fn from(error: &str) -> (r: Self) ensures r is Generic, generic_text(r) == error@ { unimplemented!() } }
+pub uninterp spec fn generic_text(e: MonorailError) -> Seq<char>;
 impl From<std::io::Error> for MonorailError { #[verifier::external_body] fn from(error: std::io::Error) -> (r: Self) ensures r is Io { MonorailError::Io(error) } }
 impl From<serde_json::error::Error> for MonorailError { #[verifier::external_body] fn from(error: serde_json::error::Error) -> (r: Self) ensures r is SerdeJSON { MonorailError::SerdeJSON(error) } }
 
